@@ -290,6 +290,7 @@ func (c *diskCache) Put(ctx context.Context, kind cache.EntryKind, hash string, 
 				log.Printf("warning: failed to remove temp file: %q", blobFile)
 			}
 		}
+		c.verifGate("put.unreserve")
 
 		if unreserve {
 			c.mu.Lock()
@@ -651,6 +652,7 @@ func (c *diskCache) get(ctx context.Context, kind cache.EntryKind, hash string, 
 				log.Printf("warning: failed to remove temp file: %q", blobFile)
 			}
 		}
+		c.verifGate("get.unreserve")
 
 		if unreserve {
 			c.mu.Lock()
